@@ -19,7 +19,7 @@ The tokenizer (expat behind `xml.etree.ElementTree.iterparse`, libxml2 behind
 `lxml.etree.iterparse`) is not modelled: its *outcome* on the byte string is the
 input of this layer.
 -/
-import XsdataModel.Bind.Parse
+import XsdataModel.Bind.Union
 
 namespace Xs.Fault
 open Py Xs.Bind
@@ -40,7 +40,7 @@ deriving Repr
 
 /-- `NodeParser.parse(source, clazz)` as far as the result class is concerned -/
 def parseDocument (e : BEnv) (Γ : Ctx) (cfg : ParserConfig) (clazz : ClassId) : Tok → Except Err (Val × Nat)
-  | .tree t => parseRoot e Γ cfg clazz t
+  | .tree t => parseRootU e Γ cfg clazz t
   | .syntaxError => .error (.parser "syntax error")      -- `except SyntaxError: raise ParserError`
   -- handlers/native.py `iterparse`: `except (LookupError, ValueError): raise ParserError`
   | .codecError _ => .error (.parser "codec error")
